@@ -234,6 +234,16 @@ def case_correction(col, p):
             col.violation('C18:make_low_pass_func:negative_entries', info, {'min': float(od.min())})
         if od.sum() > 1.0 + 1e-10:
             col.violation('C18:make_low_pass_func:more_sites_than_model', info, {'total': float(od.sum())})
+        if npop >= 2:
+            # redistribution never invents an allele: a variant absent from a population's sample (no read can show it) is absent from its calls
+            uidx = np.unravel_index(j, shape)
+            for k in range(npop):
+                if uidx[k] == 0 and sum(uidx) > 0:
+                    sl = [slice(None)] * npop
+                    sl[k] = slice(1, None)
+                    leaked = float(np.abs(od[tuple(sl)]).sum())
+                    if leaked > 1e-12:
+                        col.violation('C18:make_low_pass_func:allele_appears_in_population_without_it', dict(info, pop=k), {'mass': leaked})
         if deep and thr < 1e-2 and all(F == 0 for F in Fx) and sum(np.unravel_index(j, shape)) > 0:
             # simulated regime, deep coverage: every genotype is called correctly (a miscall needs 0 of 80 reads of an allele), so whatever the
             # random subsets drawn, a site can only land on entries the plain projection reaches
